@@ -182,6 +182,27 @@ class CollectFootnotes(Transform):
             node = children[-1]
 
 
+class UniqueContentsIds(Transform):
+    """Remove the identifiers from the copies of heading content,
+    that the docutils ``contents`` directive puts into the table of contents.
+
+    docutils only filters out what rST can put into a title (e.g. targets),
+    but with ``attrs_inline`` any inline element of a heading can carry an id.
+    """
+
+    default_priority = 721  # directly after docutils.transforms.parts.Contents
+
+    def apply(self, **kwargs: t.Any) -> None:
+        """Apply the transform."""
+        for topic in findall(self.document)(nodes.topic):
+            if "contents" not in topic["classes"]:
+                continue
+            for node in findall(topic)(nodes.Element):
+                # a copy is not the element that the document registered for the id
+                if any(self.document.ids.get(i) is not node for i in node["ids"]):
+                    node["ids"], node["names"], node["dupnames"] = [], [], []
+
+
 class ResolveAnchorIds(Transform):
     """Transform for resolving `[name](#id)` type links."""
 
